@@ -222,6 +222,12 @@ def acks(cfg):
                 A.append(mk('Emit', ns=ns, toKind='one', to=[s],
                             skipKind='none', skip=[], ev='msg', data='v1',
                             cb=tag))
+        # a callback on an emit to a group, with and without exclusions
+        A.append(mk('Emit', ns=ns, toKind='none', to=[], skipKind='one',
+                    skip=[S[0]], ev='msg', data='v1', cb='c1'))
+        if cfg.get('group_cb', True):
+            A.append(mk('Emit', ns=ns, toKind='none', to=[], skipKind='none',
+                        skip=[], ev='msg', data='v1', cb='c2'))
     for t in cfg['transports']:
         for ns in cfg['ns_all']:
             for id in cfg['ack_ids']:
